@@ -78,10 +78,10 @@ func vValidUser(u string) {
 	}
 }
 
-// vValidPass: printable ASCII without blanks (may be empty).
+// vValidPass: printable ASCII including blanks (may be empty) - what gRPC accepts as a metadata value.
 func vValidPass(p string) {
 	for i := 0; i < len(p); i++ {
-		vAssume(vAnd(p[i] > ' ', p[i] <= '~'))
+		vAssume(vAnd(p[i] >= ' ', p[i] <= '~'))
 	}
 }
 
